@@ -85,6 +85,13 @@ def showD (tNs : Nat) (stream seq hd pd : Nat) : String :=
 
 structure PSt where
   st : Option (St Pkt FTB) := none
+  /-- writes queued between `cwbegin` and `cwend` (newest first): stream, shape, sleep µs -/
+  cw : Option (List (Nat × Shape × Nat)) := none
+  /-- a concurrent block has run: the bucket state now depends on the schedule -/
+  cwDone : Bool := false
+  /-- (stream, seq) of the packets of the concurrent block, and those delivered so far -/
+  blk : List (Nat × Nat) := []
+  blkDelivered : Array Pkt := #[]
   ivlUs : Nat := 0
   nextTick : Nat := 0
   now : Nat := 0
@@ -105,16 +112,60 @@ def ticksUntil (target : Nat) : Nat → PSt → St Pkt FTB → Array String → 
     if ps.nextTick > target then (ps, st, out) else
     let t := ps.nextTick
     let st' := exec (pcfg ps.ivlUs) { st with delivered := [] } (.tick t)
-    let out := st'.delivered.foldl (fun o p => o.push (showD t p.stream p.seq p.hd p.pd)) out
+    let isBlk := fun (p : Pkt) => ps.blk.contains (p.stream, p.seq)
+    let out := st'.delivered.foldl
+      (fun o p => if isBlk p then o else o.push (showD t p.stream p.seq p.hd p.pd)) out
+    let ps := { ps with blkDelivered := st'.delivered.foldl (fun a p => if isBlk p then a.push p else a) ps.blkDelivered }
     let credit := ps.credit + ps.rate * (t - ps.tlast)
     let rel := ps.relBits + (st'.delivered.map (8 * ·.size)).foldl (· + ·) 0
     let out := if rel * giga ≤ credit then out else out.push "ENVELOPE-VIOLATED"
     let ps := { ps with nextTick := t + ps.ivlUs * 1000, tlast := t, credit := credit, relBits := rel }
     ticksUntil target fuel ps { st' with delivered := [], accepted := [] } out
 
+/-- `Write` result line and packet of a shape on a stream. -/
+def mkPkt (s : Nat) (sh : Shape) : Pkt :=
+  ⟨s, sh.seq, hdrDigest sh, fnv fnvInit (payloadBytes sh), hdrSize sh + sh.pl⟩
+
+/-- the concurrent-writer block (`cwend`): the writers' sends reach the queue in SOME order; by
+`fifo_exactly_once` the per-stream delivery order is each writer's program order and the
+global delivery order is the acceptance order whatever the interleaving, so the model takes the
+op order, accepts everything at the start of the block and ticks through sleeps + drain. -/
+def cwEnd (ps : PSt) (st : St Pkt FTB) (ws : List (Nat × Shape × Nat)) (drain : Nat) : PSt × List String :=
+  let streams := (ws.map (·.1)).eraseDups.mergeSort (· ≤ ·)
+  let cwLines := streams.flatMap fun s =>
+    (ws.filter (·.1 == s)).map fun (_, sh, _) => s!"cw s={s} n={hdrSize sh + sh.pl} err=nil"
+  let st1 := ws.foldl (fun st (s, sh, _) => ((accept (pcfg ps.ivlUs) st (mkPkt s sh)).getD st)) st
+  let st1 := drainAll st1
+  let maxSleep := (streams.map fun s => ((ws.filter (·.1 == s)).map (·.2.2)).foldl (· + ·) 0).foldl max 0
+  let target := ps.now + (maxSleep + drain) * 1000
+  let ps1 := { ps with blk := ws.map fun (s, sh, _) => (s, sh.seq), blkDelivered := #[] }
+  let (ps2, st2, out) := ticksUntil target ((maxSleep + drain) / ps.ivlUs + 2) ps1 st1 #[]
+  let del := ps2.blkDelivered.toList
+  let cwdLines := streams.flatMap fun s =>
+    (del.filter (·.stream == s)).map fun p => s!"cwd s={p.stream} seq={p.seq} h={hex8 p.hd} p={hex8 p.pd}"
+  ({ ps2 with st := some st2, now := target, cw := none, cwDone := true, blk := [], blkDelivered := #[] },
+    out.toList ++ cwLines ++ cwdLines ++ [s!"cwsum accepted={ws.length} delivered={del.length} order=ok"])
+
 def pacingStep (ps : PSt) (ts : List String) : PSt × List String :=
   let fs := fields ts
+  if ps.cwDone && ts.head? != some "close" then (ps, ["bad-op"]) else
+  if ps.cw.isSome && ts.head? != some "cww" && ts.head? != some "cwend" then (ps, ["bad-op"]) else
   match ts.head? with
+  | some "cwbegin" =>
+    match ps.st with
+    | some _ => if ps.closed then (ps, ["bad-op"]) else ({ ps with cw := some [] }, [])
+    | none => (ps, ["bad-op"])
+  | some "cww" =>
+    match ps.cw, getNat fs "s", parseShape fs, getNat fs "sl" with
+    | some q, some s, some sh, some sl =>
+      if s > 1000 || sl > 1000000 || !ps.bound.contains s then (ps, ["bad-op"])
+      else ({ ps with cw := some ((s, sh, sl) :: q) }, [])
+    | _, _, _, _ => (ps, ["bad-op"])
+  | some "cwend" =>
+    match ps.cw, getNat fs "drain", ps.st with
+    | some q, some drain, some st =>
+      if drain > 600000000 then (ps, ["bad-op"]) else cwEnd ps st q.reverse drain
+    | _, _, _ => (ps, ["bad-op"])
   | some "new" =>
     match getNat fs "rate", getNat fs "ivl", ps.st with
     | some r, some iv, none =>
